@@ -1,7 +1,7 @@
 #!/bin/bash
 # tools/seeded_all.sh: re-run every stored seeded change against the checks listed in seeded/<id>/checks (default: the id itself)
 cd /verif
-for d in seeded/C*/; do
+for d in seeded/C[0-9][0-9]/; do
   id=$(basename $d)
   checks=$(cat $d/checks 2>/dev/null || echo $id)
   echo "== $id (checks: $checks)"
